@@ -218,6 +218,15 @@ def run(F, R):
             if len(same_fn) == 1 and len(same_kind_here) == 1:
                 e = same_fn[0]
                 ak = (e["site"], e["what"])
+        if e is None and s_["t"].get("k") == "call" and s_["t"].get("argt"):
+            # third chance: the same operation on a receiver of the type the entry was written for, with the same literal
+            # arguments (the vector may be a captured variable in a closure or a local of the loop that replaced it)
+            rty = bv.crate.types[s_["t"]["argt"][0]]["s"] if isinstance(s_["t"]["argt"][0], int) else ""
+            lits = "; ".join(str(lib.term_const(bv.crate, strip(bv.trace_op(a_)))) for a_ in s_["t"]["args"][1:])
+            for e2 in allow:
+                if e2.get("crate", "omaha_client") == "omaha_client" and e2["site"] == desc and e2.get("receiver_type") and e2["receiver_type"] in rty and e2.get("literal_args") == lits:
+                    e = e2
+                    ak = (e2["site"], e2["what"])
         if e:
             used_allow.add(ak)
             nallow += 1
